@@ -148,6 +148,16 @@ fn expand_single_relspec(value: &str, ctx: &impl ElementMap) -> String {
     value.to_string()
 }
 
+/// if a value cannot be converted to f32 *and* does not contain '$'/'#'/'^' (which
+/// might be resolved later) it is passed through without being computed with.
+/// This is `true` for things such as "10%" or "40mm".
+fn passthrough(value: &str) -> bool {
+    strp(value).is_err()
+        && !(value.contains(VAR_PREFIX)
+            || value.contains(ELREF_ID_PREFIX)
+            || value.contains(ELREF_PREVIOUS))
+}
+
 impl SvgElement {
     pub fn new(name: &str, attrs: &[(String, String)]) -> Self {
         let mut attr_map = AttrMap::new();
@@ -721,6 +731,8 @@ impl SvgElement {
     }
 
     pub fn size(&self, ctx: &impl ElementMap) -> Result<Option<Size>> {
+        // As for the bounding box, a length with a unit or a percentage ("40mm", "50%")
+        // is not computed with: such a dimension is simply not known.
         // NOTE: unlike bbox, this does not replace missing values with '0'.
         // Assumes any dw / dh have already been applied.
 
@@ -728,10 +740,10 @@ impl SvgElement {
         // as intermediate (e.g. `wh` expansion) size attributes for other elements.
         let mut width = None;
         let mut height = None;
-        if let Some(w) = self.attrs.get("width") {
+        if let Some(w) = self.attrs.get("width").filter(|w| !passthrough(w)) {
             width = Some(strp(w)?);
         }
-        if let Some(h) = self.attrs.get("height") {
+        if let Some(h) = self.attrs.get("height").filter(|h| !passthrough(h)) {
             height = Some(strp(h)?);
         }
         match self.name.as_str() {
@@ -820,15 +832,6 @@ impl SvgElement {
         // if not a number and not a refspec, pass it through without computing a bbox
         // this is needed to ultimately pass through e.g. "10cm" or "5%" as-is without
         // attempting to compute a bounding box.
-        fn passthrough(value: &str) -> bool {
-            // if attrs cannot be converted to f32 *and* do not contain '$'/'#'/'^' (which
-            // might be resolved later) then return Ok(None).
-            // This will return `true` for things such as "10%" or "40mm".
-            strp(value).is_err()
-                && !(value.contains(VAR_PREFIX)
-                    || value.contains(ELREF_ID_PREFIX)
-                    || value.contains(ELREF_PREVIOUS))
-        }
         let bbox = match self.name.as_str() {
             "point" | "text" => {
                 let x = self.attrs.get("x").unwrap_or(&zstr);
